@@ -246,7 +246,7 @@ impl Read for SimReader {
             written = take;
         }
         for b in &mut buf[written..n] {
-            *b = 0xAA; // virtual filler
+            *b = 0x00; // virtual filler: as payload it is valid for every type, as a tag it parses to nothing (id 0)
         }
         self.pos += n as u64;
         self.bytes_delivered += n as u64;
